@@ -44,7 +44,8 @@ RULE = (
     "variable-duration actions) [levels 0,1; also in reversed listing order] / <= 2 steps [level 2]; plans "
     "in which one ground durative action overlaps itself are skipped; one evaluation = one plan pushed "
     "through forward and back; non-trivial = plan with >= 2 steps, or with a variable-duration step "
-    "(its end event is placed by the forward conversion)"
+    "(its end event is placed by the forward conversion); plus the family intdur (4 problems: an action "
+    "whose fixed duration is k, 2k-1, 3-k, k/2 for an integer parameter k in {1,2}), plans of <= 3 steps containing it"
 )
 ASSUMPTIONS = [
     "fixed-duration steps carry the duration fixed by the model (evaluated by the reference on the initial state: only static fluents / parameters are in the compiler's kind)",
@@ -70,6 +71,8 @@ def _ids(tier):
     for level, core_only in [(0, False), (1, False), (2, True)]:
         for cid, _ps in utemp.instances(level, None, core_only):
             out.append((level, cid))
+    for i in range(len(INTDUR)):
+        out.append((1, (("intdur", i),)))
     if tier == "thorough":
         seen = set(c for _l, c in out)
         for cid, _ps in utemp.instances(2, None, False):
@@ -123,10 +126,10 @@ def _first_end_delay(a):
     return best
 
 
-def _timed_steps(ref, tier):
+def _timed_steps(ref, tier, steps):
     starts, durs = GRID[tier]
     out = []
-    for an, args in utemp.STEPS:
+    for an, args in steps:
         if an in ref.dactions:
             fd = _fixed_duration(ref, ref.dactions[an], args)
             for s in starts:
@@ -138,12 +141,40 @@ def _timed_steps(ref, tier):
     return out
 
 
+# family intdur: a durative action whose FIXED duration is arithmetic in an integer parameter, so
+# two instances of one action have different durations that no fluent distinguishes
+def _intdur_specs():
+    I, K = utemp.I, ("p", "k")
+    out = []
+    for name, d in [("k", K), ("2k-1", ("-", ("*", I(2), K), I(1))), ("3-k", ("-", I(3), K)), ("k/2", ("/", K, I(2)))]:
+        ps = dict(utemp.make({}))
+        dk = {
+            "name": "dk",
+            "params": (("k", ("int", 1, 2)),),
+            "dur": (d, d, False, False),
+            "conds": (),
+            "effs": ((utemp.END, utemp.eff("assign", utemp.b, utemp.TRUE)),),
+        }
+        ps["dactions"] = tuple(a for a in ps["dactions"] if a["name"] == "d2") + (dk,)
+        out.append(("intdur:" + name, ps))
+    return out
+
+
+INTDUR = _intdur_specs()
+INTDUR_STEPS = [("dk", (1,)), ("dk", (2,)), ("d2", ()), ("i1", ())]
+
+
 def check_case(cid, tier, acc, only=None):
+    if cid and cid[0][0] == "intdur":
+        lab, ps = INTDUR[cid[0][1]]
+        return check_spec(ps, lab, cid, INTDUR_STEPS, tier, acc, only)
+    return check_spec(utemp.make(dict(cid)), utemp.label(cid), cid, utemp.STEPS, tier, acc, only)
+
+
+def check_spec(ps, lab, cid, steps, tier, acc, only=None):
     from unified_planning.engines.compilers.durative_actions_to_processes import DurativeActionToProcesses
     from unified_planning.engines import CompilationKind as CK
 
-    ps = utemp.make(dict(cid))
-    lab = utemp.label(cid)
     b = su.build(ps, acc)
     if b is None:
         return
@@ -165,7 +196,7 @@ def check_case(cid, tier, acc, only=None):
     acc.count("problems")
     ref = TempRef(ps)
     try:
-        ts = _timed_steps(ref, tier)
+        ts = _timed_steps(ref, tier, steps)
     except Bottom:
         acc.count("skipped_duration_not_evaluable")
         return
@@ -179,6 +210,8 @@ def check_case(cid, tier, acc, only=None):
         return
     n = 0
     used_dev = [s.split(".")[0] for s, _ in cid if s.split(".")[0] in ("d1", "d2", "i1")]
+    if cid and cid[0][0] == "intdur":
+        used_dev = ["dk"]
     deep = len(cid) <= 1
     for k in range(0, (MAX_STEPS if deep else MAX_STEPS - 1) + 1):
         for combo in combinations_with_replacement(range(len(ts)), k):
